@@ -353,7 +353,7 @@ func (b *build) decodeTrace(dir string, s *scn.Scenario) []string {
 	if err != nil {
 		return nil
 	}
-	kinds := []string{"preempted", "finished", "blocked", "start", "yielded (Gosched)", "?", "?", "?"}
+	kinds := []string{"preempted", "finished", "blocked", "start", "yielded (Gosched)", "select", "?", "?"}
 	var out []string
 	lines := strings.Split(strings.TrimSpace(string(raw)), "\n")
 	for _, l := range lines {
@@ -361,12 +361,16 @@ func (b *build) decodeTrace(dir string, s *scn.Scenario) []string {
 		if n, _ := fmt.Sscanf(l, "%d %d %d %d %d", &st, &site, &from, &to, &kind); n != 5 {
 			continue
 		}
-		if from == to {
+		if from == to && kind != 5 {
 			continue
 		}
 		if len(out) >= 200 {
 			out = append(out, fmt.Sprintf("… (%d decisions in all)", len(lines)))
 			break
+		}
+		if kind == 5 {
+			out = append(out, fmt.Sprintf("step %d: task %d in a select with several ready cases: the simulator chooses ready case #%d", st, from, to))
+			continue
 		}
 		out = append(out, fmt.Sprintf("step %d: task %d %s at %s -> task %d runs", st, from, kinds[kind&7], b.siteInfo(site), to))
 	}
